@@ -1405,9 +1405,12 @@ static void log_accounting_resp(struct client *from, struct radmsg *msg, char *u
  */
 static int ensuremsgauthfront(struct radmsg *msg) {
     static uint8_t msgauth[] = {RAD_Attr_Message_Authenticator, 0};
+    struct tlv *attr;
 
     dorewriterm(msg, msgauth, NULL, 0);
-    if (!radmsg_add(msg, maketlv(RAD_Attr_Message_Authenticator, 16, NULL), 1)) {
+    attr = maketlv(RAD_Attr_Message_Authenticator, 16, NULL);
+    if (!radmsg_add(msg, attr, 1)) {
+        freetlv(attr);
         debug(DBG_WARN, "ensuremsgauthfront: failed to add message-authenticator");
         return 0;
     }
